@@ -37,8 +37,11 @@ def _faulty_variants():
     import mlinsights.sklapi as S
     from sklearn.tree import DecisionTreeRegressor, DecisionTreeClassifier
     from sklearn.cluster import KMeans
-    FR, FC, FK = _faulty_classes()
+    FR, FC, FK, FI = _faulty_classes()
     return {
+        "ConstraintKMeans/faulty init": ("cluster", lambda pl: M.ConstraintKMeans(n_clusters=2, init=FI(pl), n_init=1, max_iter=6, random_state=0)),
+        "ConstraintKMeans/faulty init, gain": ("cluster", lambda pl: M.ConstraintKMeans(n_clusters=2, init=FI(pl), n_init=2, max_iter=5, strategy="gain", random_state=0)),
+        "KMeansL1L2/faulty init L2": ("cluster", lambda pl: M.KMeansL1L2(n_clusters=2, init=FI(pl), n_init=1, norm="L2", random_state=0)),
         "PiecewiseRegressor/faulty estimator": ("reg", lambda pl: M.PiecewiseRegressor(DecisionTreeRegressor(max_depth=2), FR(plan=pl))),
         "PiecewiseRegressor/faulty binner": ("reg", lambda pl: M.PiecewiseRegressor(FR(plan=pl, tree=True), FR(plan=pl))),
         "PiecewiseClassifier/faulty estimator": ("clf", lambda pl: M.PiecewiseClassifier(DecisionTreeClassifier(max_depth=2), FC(plan=pl), random_state=0)),
@@ -85,6 +88,9 @@ def _faulty_classes():
     def tick(plan):
         plan.calls += 1
         if plan.fail_at is not None and plan.calls - 1 == plan.fail_at:
+            if getattr(plan, "exc", None) == "interrupt":
+                # the inner estimator is interrupted (what Ctrl-C during a long inner fit delivers): not an Exception subclass
+                raise KeyboardInterrupt("injected interruption of inner fit #%d" % plan.fail_at)
             raise Injected("injected failure at inner fit #%d" % plan.fail_at)
 
     class FaultyRegressor(DecisionTreeRegressor):
@@ -115,7 +121,24 @@ def _faulty_classes():
             tick(self.plan)
             return KMeans.fit(self, X, y, sample_weight=sample_weight)
 
-    _FC = (FaultyRegressor, FaultyClassifier, FaultyKMeans)
+    class FaultyInit:
+        """A callable `init` (scikit-learn calls it as init(X, n_clusters, random_state)): the initialisation step is the inner
+        computation that can fail."""
+        verif_canon = "FaultyInit"
+
+        def __init__(self, plan):
+            self.plan = plan
+
+        def __deepcopy__(self, memo):
+            return self
+
+        def __call__(self, X, n_clusters, random_state=None):
+            tick(self.plan)
+            U = numpy.unique(numpy.asarray(X), axis=0)
+            idx = numpy.linspace(0, len(U) - 1, n_clusters).round().astype(int)
+            return U[idx].astype(numpy.float64)
+
+    _FC = (FaultyRegressor, FaultyClassifier, FaultyKMeans, FaultyInit)
     return _FC
 
 
@@ -281,6 +304,7 @@ def run_case(case):
     if arrays:
         ops += [("bad", "inf"), ("bad", "len"), ("bad", "one"), ("bad", "dim")]
     ops += [("fault", k) for k in range(Kfault)]
+    ops += [("fault", k, "interrupt") for k in range(Kfault)]
     ops = [o for o in ops if not (o[0] == "bad" and dataset(o) is None)]
 
     def do_fit(est, X, y, w=None):
@@ -343,6 +367,7 @@ def run_case(case):
                     if op[0] == "fault":
                         X, y, must = _layout(D[0]["X"], lay), _layout(D[0].get("y"), lay), True
                         plan.fail_at = op[1]
+                        plan.exc = op[2] if len(op) > 2 else None
                     else:
                         X, y, must = dataset(op)
                     dX, dy = _dig(X), _dig(y)
@@ -354,7 +379,12 @@ def run_case(case):
                         fitted = True
                     except Exception as e:
                         raised = e
+                    except KeyboardInterrupt as e:
+                        if op[0] != "fault" or "injected interruption" not in str(e):
+                            raise
+                        raised = e
                     plan.fail_at = None
+                    plan.exc = None
                     if op[0] == "fault" and raised is None:
                         bad("injected inner failure swallowed by fit", "fault", "k=%d %s" % (op[1], hdesc))
                     if _dig(w) != dw:
